@@ -62,6 +62,9 @@ def harnesses(tier):
                 hs.append({"id": "run/%s/%s/m%d" % (form, "bgzf" if gz else "text", mi),
                            "params": {"kind": "run", "form": form, "gz": gz, "walks": m}, "timeout": 600,
                            "twin": (mi, form, gz) == (1, "stable", 0)})
+    for mi in (1, 2, 3):
+        hs.append({"id": "run-revorder/stable/text/m%d" % mi, "params": {"kind": "run", "form": "stable", "gz": 0, "walks": WALK_MENUS[mi], "revorder": True},
+                   "timeout": 600})
     for gz in (0, 1):
         hs.append({"id": "run/bare/%s" % ("bgzf" if gz else "text"), "params": {"kind": "run", "form": "bare", "gz": gz, "walks": ["chr1", "chr1"]},
                    "timeout": 900})
@@ -86,6 +89,7 @@ def build(params):
             I = F.M["I"]
             L = a[:11]
             segs = CF.layout(L)
+            CF.set_walk_links([])
             ref = {}
             for nid in CF.ORDER:
                 sn, so, ln, sr = segs[nid]
@@ -141,6 +145,7 @@ def build(params):
         nums = [(a[2 * i], a[2 * i + 1]) for i in range(n)]
         cookies = list(a[2 * n:])
         recs = F.records_for(form, walks, nums)
+        F.GFA_ORDER[0] = list(reversed(list(F.LAY))) if params.get("revorder") else None
         idx, lines = F.run_index(recs, cookies, gz=bool(params["gz"]))
         return F.check_index(idx, recs, cookies)
 
@@ -188,6 +193,7 @@ def replay(params, model, wd):
     n = len(walks)
     nums = [(a[2 * i], a[2 * i + 1]) for i in range(n)]
     recs = F.records_for(params["form"], walks, nums)
+    F.GFA_ORDER[0] = list(reversed(list(F.LAY))) if params.get("revorder") else None
     gfa, gaf, lines = F.write_real(wd, recs, gz=bool(params["gz"]))
     out = os.path.join(wd, "x.gvi")
     err = None
